@@ -203,8 +203,9 @@ Lemma scan2_inv : forall n ctr,
   0 < snd r -> snd r < n /\ nn <= ctr + sum_range (snd r) (n - snd r).
 Proof.
   induction n as [|n IH]; intros ctr; cbn zeta; [cbn; lia|].
-  rewrite seq_S, rev_app_distr. cbn [rev app plus walk_counts]. unfold b2 at 1 2. cbn [fst snd].
-  destruct ((0 <? rs n) && (nn <=? ctr + rs n)) eqn:E; cbn [fst snd].
+  rewrite seq_S, rev_app_distr. cbn [rev app plus walk_counts].
+  remember (b2 (ctr, 0) n (rs n)) as r eqn:Hr. unfold b2 in Hr. cbn [fst snd] in Hr.
+  destruct ((0 <? rs n) && (nn <=? ctr + rs n)) eqn:E; subst r; cbn [fst snd].
   - intros Hpos. apply andb_true_iff in E as [_ E]. apply Nat.leb_le in E.
     split; [lia|]. replace (S n - n) with 1 by lia. cbn [sum_range]. lia.
   - intros Hpos. destruct (IH (ctr + rs n) Hpos) as [Hlt Hsum]. split; [lia|].
@@ -247,9 +248,17 @@ Lemma dc_bounds :
   (snd (se_counts ts 0) = false -> d <= fst (se_counts ts 0)).
 Proof.
   unfold d, depth_counts. fold rs. destruct (_ <=? nn); [repeat split; lia|]. cbv zeta.
-  destruct (snd (se_counts ts 0)); cbn [negb andb];
-  repeat match goal with |- context [if ?x <? ?y then _ else _] => destruct (Nat.ltb_spec x y) end;
-  repeat split; try lia; intros; try discriminate; lia.
+  set (sU0 := fst (walk_counts b1 (seq 0 (length ts)) rs (0, 0))).
+  set (cand := snd (walk_counts b2 (rev (seq 0 (length ts))) rs (0, 0))).
+  set (se := se_counts ts 0).
+  destruct (snd se); cbn [negb andb].
+  - destruct (Nat.ltb_spec cand sU0); [destruct (Nat.ltb_spec radius cand)|destruct (Nat.ltb_spec radius sU0)];
+      repeat split; intros; try discriminate; lia.
+  - destruct (Nat.ltb_spec (fst se) sU0).
+    + destruct (Nat.ltb_spec cand (fst se)); [destruct (Nat.ltb_spec radius cand)|destruct (Nat.ltb_spec radius (fst se))];
+        repeat split; intros; lia.
+    + destruct (Nat.ltb_spec cand sU0); [destruct (Nat.ltb_spec radius cand)|destruct (Nat.ltb_spec radius sU0)];
+        repeat split; intros; lia.
 Qed.
 
 Lemma dc_shallower_saturated : length ts <= 256 -> forall i, i < d -> quick <= rs i.
@@ -287,6 +296,9 @@ End Clauses.
 
 (** ---- the clauses, on the peer-level model ---- *)
 
+Lemma skipn_nth_cons {B} (l : list B) : forall k d, k < length l -> skipn k l = nth k l d :: skipn (S k) l.
+Proof. induction l as [|x l IH]; intros [|k] d H; cbn in *; try lia; auto. apply IH; lia. Qed.
+
 Lemma sum_range_rc (bins : list (list A)) : forall k,
   sum_range (fun i => nth i (map rc bins) 0) k (length bins - k) = rc (concat (skipn k bins)).
 Proof.
@@ -295,12 +307,7 @@ Proof.
   - cbn. rewrite skipn_all2 by lia. reflexivity.
   - cbn [sum_range]. rewrite (IH (S k)) by lia.
     assert (Hk : k < length bins) by lia.
-    destruct (nth_split bins [] Hk) as (l1 & l2 & Hb & Hl1).
-    assert (Hs : skipn k bins = nth k bins [] :: skipn (S k) bins).
-    { rewrite Hb at 1 3. rewrite <- Hl1. rewrite skipn_app, Nat.sub_diag, skipn_all. cbn.
-      replace (S (length l1)) with (length (l1 ++ [nth k bins []])) by (rewrite app_length; cbn; lia).
-      rewrite <- Hl1 at 2. change (nth (length l1) bins [] :: l2) with ([nth (length l1) bins []] ++ l2).
-      rewrite app_assoc. rewrite Hl1. rewrite skipn_app, skipn_all, Nat.sub_diag. reflexivity. }
+    pose proof (skipn_nth_cons bins k [] Hk) as Hs.
     rewrite Hs. cbn [concat]. rewrite rc_app. f_equal.
     change 0 with (rc []). now rewrite map_nth.
 Qed.
@@ -335,7 +342,10 @@ Theorem rd_shallower_saturated bins radius :
 Proof.
   intros Hn i Hi. rewrite recalc_depth_counts in Hi.
   pose proof (dc_shallower_saturated _ _ _ ltac:(rewrite map_length; exact Hn) i Hi) as H.
-  change 0 with (rc []) in H. now rewrite map_nth in H.
+  cbv beta in H.
+  replace (nth i (map rc bins) 0) with (rc (nth i bins [])) in H
+    by (change 0 with (rc []); now rewrite map_nth).
+  exact H.
 Qed.
 
 (** the depth depends only on the multiset of each bin *)
@@ -405,3 +415,44 @@ Proof.
     + apply Z.quot_le_lower_bound; lia.
     + intros _. cbv zeta. rewrite <- Hb'. repeat split; try lia.
 Qed.
+
+(** ---- every reachable Kad state: the stored depth has all the clauses ---- *)
+Require Import Aurora.C21.Heap.
+
+Section KadClauses.
+Variable pof : addr -> option nat.
+Variables nn quick maxBins maxpo : nat.
+
+Lemma kad_conn_length es : forall k, length (conn k) = maxBins ->
+  length (conn (kad_run pof nn quick k es)) = maxBins.
+Proof.
+  induction es as [|e t IH]; intros k Hl; cbn [kad_run fold_left]; [exact Hl|].
+  apply IH. destruct e as [a|a [|]|a|a v|r]; cbn [kad_step conn]; auto.
+  - unfold v_add1. destruct (pof a); auto. destruct (mem _ _); auto. now rewrite upd_nth_length.
+  - unfold v_add1. destruct (pof a); auto. destruct (mem _ _); auto. now rewrite upd_nth_length.
+  - unfold v_remove. destruct (pof a); auto. destruct (index_of _ _ _); auto. now rewrite upd_nth_length.
+  - destruct (radius k =? r); auto.
+Qed.
+
+Definition reachable_in (m : list (addr * status)) (l : list addr) : nat :=
+  length (filter (fun a => negb (peer_unreachable m a)) l).
+
+Lemma kad_clauses es : maxBins <= 256 ->
+  let k := kad_run pof nn quick (kad_init maxBins maxpo) es in
+  depth k = depth_of nn quick (conn k) (radius k) (reach k) /\
+  depth k <= radius k /\
+  (length (concat (conn k)) <= nn -> depth k = 0) /\
+  (0 < depth k -> nn <= reachable_in (reach k) (concat (skipn (depth k) (conn k)))) /\
+  (forall i, i < maxBins -> nth i (conn k) [] = [] -> depth k <= i) /\
+  (forall i, i < depth k -> quick <= reachable_in (reach k) (nth i (conn k) [])).
+Proof.
+  intros H256 k.
+  assert (Hok : kad_ok nn quick k) by (apply kad_run_ok, kad_init_ok).
+  assert (Hl : length (conn k) = maxBins) by (apply kad_conn_length; cbn; apply repeat_length).
+  unfold kad_ok, depth_of in Hok. split; [exact Hok|]. rewrite Hok.
+  split; [apply rd_le_radius|]. split; [apply rd_zero_small|].
+  split; [apply rd_three_beyond|]. split.
+  - intros i Hi. apply rd_le_empty. now rewrite Hl.
+  - apply rd_shallower_saturated. now rewrite Hl.
+Qed.
+End KadClauses.
